@@ -20,7 +20,7 @@ impl crate::effect::EffectBuilder for KvRateProbeBuilder {
 	fn build(self) -> (Box<dyn Effect>, ()) { (Box::new(KvRateProbe), ()) }
 }
 
-// @h prop=C16 tier=thorough kind=finding:F13 timeout=1750
+// @h prop=C16 tier=experimental kind=finding:F13 timeout=1750
 // @bounds deterministic history: add a sub-track (one probe effect, initialised by the caller at rate A=100), change the device rate to B=200 BEFORE the next callback, then the callback picks the track up
 // @funcs Mixer::{new,on_change_sample_rate,on_start_processing}, Track::{init_effects,on_change_sample_rate}, ResourceStorage::remove_and_add, ResourceController::insert
 // @catches (finding F13) the effect of a track that was queued across a sample-rate change never learning the rate that is in force
